@@ -461,7 +461,7 @@ func c10Run(ci any) (out Outcome) {
 			for k, v := range exp.kv {
 				found := false
 				for j := 0; j+1 < len(r.Args); j += 2 {
-					if r.Args[j] == k && reflect.DeepEqual(r.Args[j+1], v) {
+					if r.Args[j] == k && c10SameJSONValue(r.Args[j+1], v) {
 						found = true
 					}
 				}
@@ -550,6 +550,28 @@ func clip(b []byte) string {
 		return string(b[:80]) + "...(" + fmt.Sprint(len(b)) + " bytes)..." + string(b[len(b)-40:])
 	}
 	return string(b)
+}
+
+// c10SameJSONValue compares a logged field value with the value on the line as JSON values, so the
+// Go representation the library picks for a number (float64, json.Number) does not matter.
+func c10SameJSONValue(got, want any) bool {
+	if reflect.DeepEqual(got, want) {
+		return true
+	}
+	norm := func(v any) (any, bool) {
+		b, err := json.Marshal(v)
+		if err != nil {
+			return nil, false
+		}
+		var x any
+		if json.Unmarshal(b, &x) != nil {
+			return nil, false
+		}
+		return x, true
+	}
+	g, ok1 := norm(got)
+	w, ok2 := norm(want)
+	return ok1 && ok2 && reflect.DeepEqual(g, w)
 }
 
 var propC10 = register(&Prop{
